@@ -78,6 +78,14 @@ class Elem:
             self.expect = n
             self.kind = 'num'
             self.witness = lambda ev: ev(n)
+        elif pt == 'decimal':
+            import decimal
+            fam = ['0', '0.00', '1', '12.50', '99999.999', '0.5']
+            dv = decimal.Decimal(choose(name + '_dec', fam))
+            self.value = dv
+            self.expect = dv
+            self.kind = 'dec'
+            self.witness = lambda ev: {'decimal': str(dv)}
         elif pt == 'datetime':
             d = SymDate(name)
             self.value = d
@@ -129,6 +137,10 @@ class Elem:
             return cat('b', ('%03d' % len(self.value)).encode(enc), self.value)
         if self.kind == 'num':
             return mk('t', [Num(self.value, w)]).encode(enc)
+        if self.kind == 'dec':
+            txt = format(self.value, '0%df' % w)
+            n = flen(cfg)
+            return (('%0*d' % (n, len(txt))) if n else '').encode(enc) + txt.encode(enc)
         if self.kind == 'date':
             return self.value.__sformat__(cfg.get('field_date_format', '%y%m%d')).encode(enc)
         if self.kind == 'fixed':
@@ -139,6 +151,25 @@ class Elem:
             return cat('b', v, mk('b', [Fill(' '.encode(enc), w - L)]))
         n = flen(cfg)
         return cat('b', mk('t', [Num(rlen(self.value), n)]).encode(enc), self.value.encode(enc))
+
+
+class PdsElem:
+    """a PDSxxxx entry of the message dict (packed into the carrier elements by the writer)"""
+    kind = 'var'
+    proc = None
+    pds = {}
+    bit = 0
+    src_len = None
+
+    def __init__(self, key, tag='', maxvar=None):
+        self.key = key
+        self.cfg = {'field_type': 'PDS'}
+        n = sym_int(key.lower() + tag + '_len', 0, min(maxvar or 300, 992))
+        src = Source(key.lower() + tag, 't', n)
+        self.value = src.rope() if not (isinstance(n, int) and n == 0) else ''
+        self.expect = self.value
+        self.derived = {'DE%d' % c for c in PDS_CARRIERS}
+        self.witness = lambda ev: concretize(self.value, ev) if isinstance(self.value, Rope) else self.value
 
 
 def configured_bits():
@@ -160,11 +191,14 @@ def build_message(bits, mti='1240', cfgs=None, special_only=None, **kw):
     """special_only: index of the one element that gets the boundary options (short fixed / over-long variable);
     keeps the number of paths linear in the number of elements"""
     cfgs = cfgs or bit_config()
+    pds_keys = [b for b in bits if isinstance(b, str)]
+    bits = [b for b in bits if not isinstance(b, str)]
     if special_only is None:
         elems = [Elem(b, cfgs[str(b)], **kw) for b in bits]
     else:
         plain = {k: v for k, v in kw.items() if k not in ('short_ok', 'over', 'minvar')}
         elems = [Elem(b, cfgs[str(b)], **(kw if i == special_only else plain)) for i, b in enumerate(bits)]
+    elems += [PdsElem(k, tag=kw.get('tag', ''), maxvar=kw.get('maxvar')) for k in pds_keys]
     msg = {'MTI': mti}
     for e in elems:
         msg[e.key] = e.value
